@@ -775,7 +775,7 @@ func (f *frame) materialize(v Val, t types.Type) Val {
 				r := f.x.S.Declare("interior", SInt)
 				f.assume(IntLt(IntConst(0), r))
 				f.assume(IntLt(r, f.cur.heap.next))
-				return Val{T: []Term{r}, Typ: t}
+				return Val{T: []Term{r}, Typ: t, Loc: v.Loc}
 			}
 			abort("interior pointer used as a first-class value in %s", f.dispName)
 		}
